@@ -125,3 +125,14 @@ Theorem C07_source_effects :
   (forall ctx q rep, peq (src_handle_validation_response ctx q rep) (handle_validation_response ctx q rep)).
 Proof. repeat split; [exact tie_handle_unrecognized_method|exact tie_handle_validation_response]. Qed.
 Print Assumptions C07_source_effects.
+
+(* ... and the invalidation itself — the entries the index lists, then for Location and Content-Location (in that order) the
+   same-origin target's listed entries and its index, then the index of the request's URI; no key deleted twice — is what
+   /verif/translate derives from internal/cacheinvalidator.go on this run (Generated/SrcInval.v) *)
+From HC.Generated Require Import SrcInval.
+From HC.Proofs Require Import TieInval.
+Theorem C07_source_invalidation :
+  forall (A : Type) u h refs key (c c' : prog A), peq c c' ->
+    peq (src_invalidate_cache u h refs key c) (invalidate_cache u h refs key c').
+Proof. exact @tie_invalidate_cache. Qed.
+Print Assumptions C07_source_invalidation.
